@@ -145,14 +145,14 @@ theorem C03_cache_valid (h : List HOp) : CacheOK (run init h) := by
     simp only [run, List.foldl_cons]
     apply ih
     cases o with
-    | edit op => exact step_cacheOK s op hs
+    | edit op given => exact stepS_cacheOK s op given hs
     | ask q => exact query_cacheOK s q hs
     | fork => exact hs
 
 /-- Hence every query, after any history, answers exactly as a model freshly built from the current
     content (`freshAnswer` runs `createCache` on the content and answers from that). -/
 theorem C03_fresh_equiv (h : List HOp) (q : Query) (hq : q ≠ .eqFresh) :
-    (query (run init h) q).2 = freshAnswer (run init h).content q := by
+    (query (run init h) q).2 = freshAnswer (run init h).sigs (run init h).content q := by
   have hc := C03_cache_valid h
   generalize run init h = s at hc
   unfold query freshAnswer
@@ -163,7 +163,7 @@ theorem C03_fresh_equiv (h : List HOp) (q : Query) (hq : q ≠ .eqFresh) :
       rcases hc with hn | ⟨c, h1, h2⟩
       · rw [hn]
         simp only
-        cases hcc : createCache s.content with
+        cases hcc : buildCache s.sigs s.content with
         | ok c => simp [bind, Except.bind]
         | error e => simp [bind, Except.bind]
       · rw [h2, h1]
@@ -205,11 +205,14 @@ theorem C03_query_is_pure (h : List HOp) (q : Query) :
     (The shared core does not model the final `args.pop(data)` of `_get_args`; without data sets the two
     coincide.) -/
 theorem C03_fresh_is_core_rhs (c : Content) (hd : c.data = []) (vals : List Rat) (t : Rat) :
-    freshAnswer c (.rhs (some vals) t)
+    freshAnswer [] c (.rhs (some vals) t)
       = (Mxl.getRhsQ c (some (cycle vals 0 (omKeys c.vars))) t).map Ans.assoc := by
   have hn : (Query.rhs (some vals) t).needsCache = true := rfl
-  unfold freshAnswer
-  rw [if_pos hn]
+  have ha : arityOK [] c = true := by
+    unfold arityOK
+    exact List.all_eq_true.mpr (fun na _ => rfl)
+  unfold freshAnswer buildCache
+  rw [if_pos hn, if_pos ha]
   unfold Mxl.getRhsQ answer stateOf resolveVars rawArgs
   cases createCache c with
   | error e => rfl
@@ -224,6 +227,48 @@ theorem C03_fresh_is_core_rhs (c : Content) (hd : c.data = []) (vals : List Rat)
         rfl
       simp only [pure, Except.pure, this, List.append_nil]
 
+/-! ## the sanity checks of `_create_cache` (function arities) -/
+
+/-- what the translator read: the sanity-check loop walks initial assignments, derived quantities, reactions AND
+    readouts, raises `ArityMismatchError`, and runs before the dependency sort -/
+theorem C03_table_arity :
+    Gen.arityChecked = ["initial_assignments", "_derived", "_reactions", "_readouts"] ∧
+    Gen.arityError = "ArityMismatchError" ∧ Gen.arityBeforeSort = true := ⟨rfl, rfl, rfl⟩
+
+/-- `_check_function_arity` as generated from the source: a function whose positional parameters are exactly
+    the model arguments is accepted, so is any `*args` function; a plain function (no defaults, no keyword-only
+    parameters, no `*args`) is accepted ONLY in that case. -/
+theorem C03_check_function_arity (sig : Gen.Sig) (arity : Nat) :
+    (sig.nargs = arity → Gen.checkFunctionArity sig arity = true) ∧
+    (sig.varargs = true → Gen.checkFunctionArity sig arity = true) ∧
+    (sig.defaults = none → sig.varargs = false →
+      (Gen.checkFunctionArity sig arity = true ↔ sig.nargs = arity)) := by
+  refine ⟨fun h => ?_, fun h => ?_, fun hd hv => ?_⟩
+  · unfold Gen.checkFunctionArity; simp [h]
+  · unfold Gen.checkFunctionArity; simp [h]
+  · unfold Gen.checkFunctionArity; simp [hd, hv]
+
+/-- A mismatch anywhere among the checked functions makes EVERY cache-building entry point raise
+    `ArityMismatchError` — on the edited model exactly as on a freshly built one (`C03_fresh_equiv`) — whatever
+    else is wrong with the content (it wins over a missing dependency). -/
+theorem C03_arity_mismatch_raises (h : List HOp) (q : Query) (hq : q.needsCache = true)
+    (hbad : arityOK (run init h).sigs (run init h).content = false) :
+    (query (run init h) q).2 = .error (.other "ArityMismatchError") := by
+  have hne : q ≠ .eqFresh := by intro he; rw [he] at hq; cases hq
+  rw [C03_fresh_equiv h q hne]
+  unfold freshAnswer buildCache
+  rw [if_pos hq, hbad]
+  rfl
+
+/-- A raising call records no signature: content, ids AND the functions' signatures are those of before. -/
+theorem C03_rejected_records_nothing (s : State) (op : Op) (given) (e : Err)
+    (hr : (stepS s op given).2 = .error e) : (stepS s op given).1 = (step s op).1 := by
+  unfold stepS at hr ⊢
+  simp only at hr ⊢
+  split
+  · rename_i hok; rw [hok] at hr; cases hr
+  · rfl
+
 /-! ## one name space, kept exact by every edit -/
 
 /-- After ANY history: `ids` holds exactly the declared names — the keys of the seven containers plus every
@@ -237,7 +282,7 @@ theorem C03_ids_exact (h : List HOp) : Exact (run init h) := by
     simp only [run, List.foldl_cons]
     apply ih
     cases o with
-    | edit op => exact step_exact s op hs
+    | edit op given => exact exact_of_same (stepS_same s op given) (step_exact s op hs)
     | ask q => exact exact_of_same (query_same s q) hs
     | fork => exact hs
 
@@ -374,5 +419,20 @@ example :
       (.add_parameters [("n1", .plain 1), ("k", .plain 2)])).2 = .error (.nameError "k") ∧
     omKeys (step (run init [.edit (.add_parameter "k" (.plain 3))])
       (.add_parameters [("n1", .plain 1), ("k", .plain 2)])).1.ids = ["k"] := ⟨rfl, by decide +kernel⟩
+
+/-- the arity path is live: a readout whose function takes two parameters for one argument makes the next
+    query raise; removing the readout repairs the model (this is the history of finding F-C03-9) -/
+def badReadout : List HOp :=
+  [ .edit (.add_variable "x" (.plain 1)),
+    .ask .init,
+    .edit (.add_readout "ro" { args := ["x"], fn := fun xs => xs.getD 0 0 }) [("ro", { nargs := 2 })] ]
+
+example : (match (query (run init badReadout) .init).2 with
+    | .error (.other e) => e == "ArityMismatchError" | _ => false) = true := by decide +kernel
+
+example : (match (query (run init (badReadout ++ [.edit (.remove_readout "ro")])) .init).2 with
+    | .ok (.assoc l) => l == [("x", (1 : Rat))] | _ => false) = true := by decide +kernel
+
+example : arityOK (run init badReadout).sigs (run init badReadout).content = false := by decide +kernel
 
 end Mxl.C03
